@@ -47,6 +47,11 @@ Insert(mode, ts, i, t) == Reorder(mode, RawInsert(ts, i, t))
 CanIndex(ts, i) == i < Len(ts)
 SetItem(mode, ts, i, t) == Reorder(mode, [j \in DOMAIN ts |-> IF j = i + 1 THEN t ELSE ts[j]])
 DelItem(ts, i) == SubSeq(ts, 1, i) \o SubSeq(ts, i + 2, Len(ts))
+\* f[i:j] = new  and  del f[i:j]  (python slices clamp to the length)
+Clamp(ts, i) == IF i > Len(ts) THEN Len(ts) ELSE i
+SetSlice(mode, ts, i, j, new) == LET a == Clamp(ts, i) b == IF Clamp(ts, j) < a THEN a ELSE Clamp(ts, j) IN
+                                 Reorder(mode, SubSeq(ts, 1, a) \o new \o SubSeq(ts, b + 1, Len(ts)))
+DelSlice(ts, i, j) == LET a == Clamp(ts, i) b == IF Clamp(ts, j) < a THEN a ELSE Clamp(ts, j) IN SubSeq(ts, 1, a) \o SubSeq(ts, b + 1, Len(ts))
 AppendT(mode, ts, t) == Insert(mode, ts, Len(ts), t)
 RECURSIVE Extend(_, _, _)
 Extend(mode, ts, new) == IF new = <<>> THEN ts ELSE Extend(mode, AppendT(mode, ts, Head(new)), Tail(new))
